@@ -1,3 +1,12 @@
+//@ fn StoredPoint::manifest
+//@ spec
+    ensures match res { Some(m) => self.manifest == Some(*m), None => self.manifest is None },
+//@ fn StoredPoint::is_new
+//@ spec
+    ensures res == self.is_new,
+//@ fn StoredPoint::path
+//@ spec
+    ensures *res == self.path.p,
 //@ fn StoredPoint::retain
 //@ spec
     ensures
